@@ -31,6 +31,8 @@ type declResult struct {
 	Msgs    []string            `json:"msgs"`
 	SubPanic *bool              `json:"subpanic,omitempty"` // InSub: did Run (help of the application) panic
 	SubMsg   string             `json:"submsg,omitempty"`
+	SubPanic2 *bool             `json:"subpanic2,omitempty"` // InSub: did the second help request panic (asked for only if the first did not)
+	SubMsg2  string             `json:"submsg2,omitempty"`
 	Address map[string][]int    `json:"address"` // spelled name -> indices of the declarations whose variable was set
 	RunErr  map[string]string   `json:"runerr,omitempty"`
 }
@@ -84,6 +86,11 @@ func runDecl(c declCase) (r declResult) {
 		})
 		p, m := try(func() { app.Run([]string{"app", "--help"}) })
 		r.SubPanic, r.SubMsg = &p, m
+		if !p {
+			// the help is requested again: the sub command's initialiser runs a second time on the same object
+			p2, m2 := try(func() { app.Run([]string{"app", "--help"}) })
+			r.SubPanic2, r.SubMsg2 = &p2, m2
+		}
 		return
 	}
 	if c.Kind == "opts" {
